@@ -11,7 +11,8 @@ AsType(CT, r) == IF r.k = "K" THEN SelfTerm(CT, r.n) ELSE r
 RECURSIVE HasIn(_)
 HasIn(t) == (t.k = "W" /\ t.n = "in") \/ \E i \in DOMAIN t.a : HasIn(t.a[i])
 RECURSIVE Hat(_)
-Hat(T) == IF T.k = "V" /\ T.a # <<>> THEN Hat(T.a[1]) ELSE T
+\* (a variable bounded by the top type is the same type as an unbounded one: it stands for itself)
+Hat(T) == IF T.k = "V" /\ T.a # <<>> THEN (IF Hat(T.a[1]) = TopT THEN [k |-> "V", n |-> T.n, a |-> <<>>] ELSE Hat(T.a[1])) ELSE T
 
 \* ---- C09: subtype search ---------------------------------------------------------------------------------------
 Usable(r, concreteOnly) == concreteOnly => r.k # "K"
@@ -96,4 +97,10 @@ RECURSIVE DependentParam(_, _)
 DependentParam(CT, T) ==
   \/ T.k = "C" /\ T.n \in DOMAIN CT /\ \E i \in DOMAIN CT[T.n].tp : CT[T.n].tp[i].b # <<>> /\ CT[T.n].tp[i].b[1].k = "V"
   \/ \E i \in DOMAIN T.a : DependentParam(CT, T.a[i])
+\* a parameter whose bound is a parameterized type that mentions another parameter (class Low<A, Y : Lymphoma<G, A, A>, F>): the search
+\* re-instantiates the argument in Y's slot to fit the bound for the new A (_replace_type_argument) even where the slot is invariant
+RECURSIVE ParamInBound(_, _)
+ParamInBound(CT, T) ==
+  \/ T.k = "C" /\ T.n \in DOMAIN CT /\ \E i \in DOMAIN CT[T.n].tp : CT[T.n].tp[i].b # <<>> /\ CT[T.n].tp[i].b[1].k # "V" /\ FreeVars(CT[T.n].tp[i].b[1]) # {}
+  \/ \E i \in DOMAIN T.a : ParamInBound(CT, T.a[i])
 =============================================================================
